@@ -298,7 +298,7 @@ class Orchestrator:
                                 ('max_type_align_panic', 'max_type_align() panicked'), ('display_panic', 'rendering the definition as text panicked'),
                                 ('generator_panic', 'generate() panicked')):
                     if k in m:
-                        res['findings'].append({'props': ['C13'], 'rule': 'G-PANIC', 'engine': 'GEN', 'module': m['tag'], 'tag': m['tag'], 'fn': k,
+                        res['findings'].append({'props': ['C13'] + (['C12'] if k == 'builder_panic' else []), 'rule': 'G-PANIC', 'engine': 'GEN', 'module': m['tag'], 'tag': m['tag'], 'fn': k,
                                                 'msg': '%s on a definition built from valid requests: %s' % (what, m[k][:200]),
                                                 'key': 'G-PANIC|%s|%s' % (k, P.history_key(m)), 'history': m['history']})
         for i, b, errs in compile_findings:
